@@ -162,7 +162,7 @@ package htlcswitch
 //@   ensures result0 != nil
 //@
 //@ func (cm *circuitMap) cleanClosedChannels$2$2
-//@   props C07
+//@   props C07 C08
 //@   bounds-safe
 //@   site call CheckResolutionMsg: assert arg(0) == addr(outKey) && !ret(isClosedChannel, 0) && ret(isClosedChannel, 1)
 //@   site call isClosedChannel nth 0: assert arg(0).BlockHeight == inKey.ChanID.BlockHeight && arg(0).TxIndex == inKey.ChanID.TxIndex &&
@@ -327,3 +327,19 @@ package htlcswitch
 //@   bounds-safe
 //@   ensures result.ChanID == p.outgoingChanID && result.HtlcID == p.outgoingHTLCID
 //@   modifies nothing
+//@
+//@ // ---- a mailbox that comes alive takes over the packets parked for it exactly once: they leave the unclaimed set
+//@ func (mo *mailOrchestrator) BindLiveShortChanID
+//@   props C07 C08
+//@   bounds-safe
+//@   loop * havoc
+//@   ensures !has(mo.unclaimedPackets, sid)
+//@
+//@ // ---- restart: a stored on-chain resolution is dropped only when its circuit is no longer OPEN (a circuit that is
+//@ // ---- merely known would also match a half-open one); otherwise it is handed to the switch again
+//@ func (s *Switch) reforwardResolutions
+//@   props C07 C08
+//@   bounds-safe
+//@   loop * havoc
+//@   site call deleteResolutionMsg: assert called(LookupOpenCircuit) && ret(LookupOpenCircuit) == nil
+//@   site call LookupOpenCircuit: assert arg(1).HtlcID == resMsg.HtlcIndex
